@@ -5,7 +5,8 @@ import (
 	"errors"
 	"fmt"
 	"net/http"
-	"regexp"
+	"strconv"
+	"strings"
 	"time"
 
 	"github.com/oauth2-proxy/oauth2-proxy/v7/pkg/apis/options"
@@ -69,11 +70,8 @@ func (s *SessionStore) Load(req *http.Request) (*sessions.SessionState, error) {
 // Clear clears any saved session information by writing a cookie to
 // clear the session
 func (s *SessionStore) Clear(rw http.ResponseWriter, req *http.Request) error {
-	// matches CookieName, CookieName_<number>
-	var cookieNameRegex = regexp.MustCompile(fmt.Sprintf("^%s(_\\d+)?$", s.Cookie.Name))
-
 	for _, c := range req.Cookies() {
-		if cookieNameRegex.MatchString(c.Name) {
+		if s.isSessionCookieName(c.Name) {
 			clearCookie := s.makeCookie(req, c.Name, "", time.Hour*-1)
 
 			http.SetCookie(rw, clearCookie)
@@ -81,6 +79,30 @@ func (s *SessionStore) Clear(rw http.ResponseWriter, req *http.Request) error {
 	}
 
 	return nil
+}
+
+// isSessionCookieName reports whether name is the session cookie name or one
+// of the names splitCookie derives from it. For cookie names close to the 256
+// byte limit splitCookieName truncates the base name, so a pattern built from
+// the full name does not recognise the split cookies.
+func (s *SessionStore) isSessionCookieName(name string) bool {
+	if name == s.Cookie.Name {
+		return true
+	}
+	idx := strings.LastIndex(name, "_")
+	if idx < 0 || idx == len(name)-1 {
+		return false
+	}
+	for _, r := range name[idx+1:] {
+		if r < '0' || r > '9' {
+			return false
+		}
+	}
+	count, err := strconv.Atoi(name[idx+1:])
+	if err != nil {
+		return false
+	}
+	return name == splitCookieName(s.Cookie.Name, count)
 }
 
 // VerifyConnection always return no-error, as there's no connection
@@ -124,14 +146,11 @@ func (s *SessionStore) setSessionCookie(rw http.ResponseWriter, req *http.Reques
 // next to new split cookies, or the tail of a longer split cookie) and
 // presents them together with the new ones on the next request.
 func (s *SessionStore) clearStaleCookies(rw http.ResponseWriter, req *http.Request, written map[string]struct{}) {
-	// matches CookieName, CookieName_<number>
-	var cookieNameRegex = regexp.MustCompile(fmt.Sprintf("^%s(_\\d+)?$", s.Cookie.Name))
-
 	for _, c := range req.Cookies() {
 		if _, ok := written[c.Name]; ok {
 			continue
 		}
-		if cookieNameRegex.MatchString(c.Name) {
+		if s.isSessionCookieName(c.Name) {
 			http.SetCookie(rw, s.makeCookie(req, c.Name, "", time.Hour*-1))
 		}
 	}
